@@ -216,6 +216,8 @@ def check_scenario(sc, scratch, stats=None):
     sel = len(text) % 4
     if not default_dialect and sel < 2:
         sel += 2       # `--out-format input` would write the input dialect, which cannot represent every output cell
+    if sel == 3 and ('\t' in text or '\\t' in text):
+        sel = 2        # a TAB produced by the query cannot be represented in tsv (simple policy) output
     cli_runs = []
     if sel == 0:
         cli_runs.append(('cli-file', ['--input', src, '--output', dst], None, ',', 'quoted'))
@@ -232,7 +234,10 @@ def check_scenario(sc, scratch, stats=None):
         cli_dlm = dlm
         if dlm == '\t':
             cli_dlm = ['\t', 'TAB', '\\t'][len(text) % 3]      # the documented spellings of a tab on the command line
-        rc, out, err = cli(['--delim', cli_dlm, '--policy', policy, '--encoding', enc, '--with-headers', '--query', ftext] + extra, scratch, stdin_data)
+        mode_word = ['csv'] if len(text) % 3 == 1 else []     # `rbql [csv] ...`: the documented optional mode word
+        if mode_word:
+            name += '+mode-word'
+        rc, out, err = cli(mode_word + ['--delim', cli_dlm, '--policy', policy, '--encoding', enc, '--with-headers', '--query', ftext] + extra, scratch, stdin_data)
         out = out.decode(enc, errors='replace')
         ctx = {'query': ftext, 'entry': name, 'exit': rc, 'stderr': err[-400:], 'stdout': out[:300]}
         if lib_err is None:
@@ -300,6 +305,34 @@ def check_scenario(sc, scratch, stats=None):
         results['sqlite'] = ('error', engine.err_info(e)['cls'])
     finally:
         con.close()
+    # 10. the command line in sqlite mode (`python -m rbql sqlite DB --input TABLE ...`), for a third of the scenarios
+    if len(text) % 3 == 2:
+        sq_text = text.replace(' B on ', ' b on ')
+        to_file = len(text) % 2 == 0
+        sq_out = os.path.join(scratch, 'c13_sqlcli.csv')
+        if os.path.exists(sq_out):
+            os.remove(sq_out)
+        rc, out, err = cli(['sqlite', dbp, '--input', 't', '--query', sq_text] + (['--output', sq_out] if to_file else []), scratch)
+        out = out.decode('utf-8', errors='replace')
+        ctx = {'query': sq_text, 'entry': 'cli-sqlite', 'exit': rc, 'stderr': err[-400:], 'stdout': out[:300]}
+        lib = results['sqlite']
+        if lib[0] != 'error':
+            if rc != 0:
+                raise Violation('cli-fails-where-library-succeeds', ctx)
+            if [l for l in err.splitlines() if l.strip() and not l.startswith('Warning: ')]:
+                raise Violation('cli-stderr-not-only-warnings', ctx)
+            if to_file and out != '':
+                raise Violation('cli-stdout-not-empty-with-output-file', ctx)
+            results['cli-sqlite'] = parse(sq_out, ',', 'quoted', penc='utf-8') if to_file else parse(out, ',', 'quoted', is_text=True)
+        else:
+            if rc == 0:
+                raise Violation('cli-exit-0-on-failure', ctx)
+            m = re.search(r'^Error \[([^\]]+)\]: ', err, re.M)
+            if not m:
+                raise Violation('cli-no-error-line', ctx)
+            if m.group(1) != ERR_TYPES.get(lib[1], 'unexpected'):
+                raise Violation('cli-error-type', dict(ctx, expected=ERR_TYPES.get(lib[1]), library=lib[1]))
+            results['cli-sqlite'] = ('error', lib[1])
     base = results['query_table']
     if stats is not None:
         q = sc.get('q', {})
